@@ -22,6 +22,51 @@ CEIL_FORMS = ["int((M_n - 1) / M_c) + 1", "(M_n - 1) // M_c + 1", "(M_n + M_c - 
 FLOOR_FORMS = ["M_n // M_c", "int(M_n / M_c)", "math.floor(M_n / M_c)", "int(M_n // M_c)", "round(M_n / M_c)"]
 
 
+def _count_form(e):
+    """(iterated text, {(condition with the variable renamed, polarity)}) for len([x for x in K if c]) / sum(1 for x in K if c)
+    / len(K); None otherwise"""
+    b = pm.match("len(M_k)", e)
+    gen = None
+    if b is not None and isinstance(b["M_k"], (ast.ListComp, ast.GeneratorExp)):
+        gen = b["M_k"]
+        if U(gen.elt) != U(gen.generators[0].target):
+            return None
+    elif b is not None:
+        return U(b["M_k"]), frozenset()
+    else:
+        b = pm.match("sum(M_g)", e)
+        if b is not None and isinstance(b["M_g"], (ast.ListComp, ast.GeneratorExp)) and U(b["M_g"].elt) == "1":
+            gen = b["M_g"]
+    if gen is None or len(gen.generators) != 1 or not isinstance(gen.generators[0].target, ast.Name):
+        return None
+    g = gen.generators[0]
+    facts = set()
+    for c in g.ifs:
+        ren = ast.parse(U(c), mode="eval").body
+        for x in ast.walk(ren):
+            if isinstance(x, ast.Name) and x.id == g.target.id:
+                x.id = "ITEM_"
+        facts |= C.norm_facts_of_test(ren)
+    return U(g.iter), frozenset(facts)
+
+
+def is_len_of(e, kern, flow=None):
+    """is `e` the number of entries of `kern`: len(kern), or a count of the entries with a condition plus the count of those
+    without it"""
+    e = flow.subst(e) if flow is not None else e
+    cf = _count_form(e)
+    if cf is not None:
+        return cf == (kern, frozenset())
+    if isinstance(e, ast.BinOp) and isinstance(e.op, ast.Add):
+        a, b = _count_form(e.left), _count_form(e.right)
+        if a is None or b is None or a[0] != kern or b[0] != kern or len(a[1]) != 1 or len(b[1]) != 1:
+            return False
+        (ta, pa), = a[1]
+        (tb, pb), = b[1]
+        return ta == tb and pa != pb
+    return False
+
+
 def _r1(ctx, f):
     ctx.rule("R1", "static partition covers every root exactly once (premises of the partition lemma)")
     kern = f.params()[1]
@@ -49,7 +94,7 @@ def _r1(ctx, f):
         W = U(direct["M_w"])
         stop = direct["M_stop"]
         nvars = [a.targets[0].id for a in ast.walk(f.node) if isinstance(a, ast.Assign) and isinstance(a.targets[0], ast.Name)
-                 and U(a.value) == "len(%s)" % kern]
+                 and is_len_of(a.value, kern, flow)]
         cdefs = [a for a in ast.walk(f.node) if isinstance(a, ast.Assign) and isinstance(a.targets[0], ast.Name)
                  and C.calls_to(a.value, "cpu_count")]
         wd = C.assigns_to(f.node, W)
@@ -132,7 +177,7 @@ def _r1(ctx, f):
     W = U(bs["M_w"])
     # n and c are the names bound to len(kernel) and cpu_count()
     nvars = [a.targets[0].id for a in ast.walk(f.node) if isinstance(a, ast.Assign) and isinstance(a.targets[0], ast.Name)
-             and U(a.value) == "len(%s)" % kern]
+             and is_len_of(a.value, kern, flow)]
     # c: the name bound to an expression of cpu_count() (any positive value works for the lemma)
     cdefs = [a for a in ast.walk(f.node) if isinstance(a, ast.Assign) and isinstance(a.targets[0], ast.Name)
              and C.calls_to(a.value, "cpu_count")]
@@ -384,7 +429,21 @@ def _r2(ctx, f):
         st = C.cfg_of(fi).node_of(c)
         if isinstance(st, ast.For) and C.in_subtree(c, st.iter):
             apps = pm.find("M_l.append(%s)" % U(st.target), st)
-            return bool(apps) and apps[0][0] is st.body[0].value if isinstance(st.body[0], ast.Expr) else False
+            if apps and isinstance(st.body[0], ast.Expr) and apps[0][0] is st.body[0].value:
+                return True
+            if len(apps) == 1:
+                # a path is dropped only when its canonical key was seen before (`if key not in seen: seen.add(key); append`):
+                # that is the de-duplication C05-R4 (embedded as R3) judges by its key, not a filter
+                app_st = C.cfg_of(fi).node_of(apps[0][0])
+                extra = [x for x in C.norm_facts(app_st) if x not in C.norm_facts(st)]
+                seen = []
+                for t, pol in extra:
+                    m = pm.match("M_k in M_s", ast.parse(t, mode="eval").body) if isinstance(t, str) else None
+                    if m is None or pol is not False or not pm.find("%s.add(%s)" % (U(m["M_s"]), U(m["M_k"])), st):
+                        return False
+                    seen.append(m)
+                return bool(seen)
+            return False
         if isinstance(st, ast.Expr) and pm.match("M_l.extend(M_g)", st.value) is not None:
             return True
         if isinstance(st, ast.Assign):
